@@ -36,5 +36,13 @@ try:
                 pass
     # keep found replays out of /verif/replays/found? they are git-ignored; fine.
 finally:
+    # engines of a mutated tree may survive their harness (a hang is what some mutants produce): kill whatever still runs from the scratch directory
+    for pdir in os.listdir("/proc"):
+        if pdir.isdigit():
+            try:
+                if os.readlink("/proc/%s/exe" % pdir).startswith(d + "/"):
+                    os.kill(int(pdir), 9)
+            except OSError:
+                pass
     subprocess.call(["git", "-C", "/repo", "worktree", "remove", "--force", wt])
     shutil.rmtree(d, ignore_errors=True)
